@@ -9,6 +9,7 @@ R3 last-key typestate: on every success path the content of w->last_key at retur
 R4 exclusive create: every open() that can create a file in the library's writer carries
    O_CREAT|O_EXCL, the failed-open edge returns NULL with no other effect; no other
    file-creating call exists in the unit.
+D  rests on: C02 C02.R3 (the ordering gate is exactly as good as the byte comparison it calls) - re-run here as <id>.D.<rule>.
 """
 from .common import *
 
@@ -237,3 +238,6 @@ def run(ctx, res):
         res.bad("C08.R4", site(g, n["callee"]), "writer unit creates files outside mtbl_writer_init", g.loc(n))
     if not others:
         res.ok("C08.R4", "mtbl/writer.c:file-creators", "mtbl_writer_init holds the unit's only file-creating call")
+
+    # ---- properties this one rests on (re-run here, labelled <this>.D.<rule>) ------------------
+    depends(ctx, res, 'C02', ('C02.R3',), 'the ordering gate is exactly as good as the byte comparison it calls')
